@@ -934,19 +934,19 @@ func checkOneFrame(w *World, r *Report, pfx string) {
 	fl := w.flushFn()
 	if fl != nil {
 		var rangeRecv *commOp
-		for _, op := range w.Comm().byFn[fl] {
-			if op.Kind == "recv" && op.CommaOk {
-				rangeRecv = op
+		var il iterLoopInfo
+		for _, x := range w.iterLoops(fl) {
+			if x.Loop != nil && x.Body != nil {
+				rangeRecv, il = x.Op, x
 			}
 		}
 		if rangeRecv == nil {
 			r.Undecided(rule, "flush collection loop", w.pos(fl.Pos()), "no range over the ordered iterator")
 		} else {
 			hdr := rangeRecv.Instr.Block()
-			// body start = successor on ok
-			body := hdr.Succs[0]
+			body := il.Body
 			bad := ""
-			n, over := w.enumPaths(fl, pathOpts{InlineDepth: 1, Start: body, StopAt: func(b *ssa.BasicBlock) bool { return b == hdr }}, func(p *Path) {
+			n, over := w.enumPaths(il.Fn, pathOpts{InlineDepth: 1, Start: body, StopAt: func(b *ssa.BasicBlock) bool { return b == hdr }}, func(p *Path) {
 				if p.Exit != "stop" {
 					// leaving the function from inside the collection loop
 					bad = "flush can return from inside its collection loop: the remaining bars' frames are never received"
@@ -973,16 +973,17 @@ func checkOneFrame(w *World, r *Report, pfx string) {
 	rf := w.renderFn()
 	if rf != nil {
 		var rangeRecv *commOp
-		for _, op := range w.Comm().byFn[rf] {
-			if op.Kind == "recv" && op.CommaOk {
-				rangeRecv = op
+		var il iterLoopInfo
+		for _, x := range w.iterLoops(rf) {
+			if x.Loop != nil && x.Body != nil {
+				rangeRecv, il = x.Op, x
 			}
 		}
 		if rangeRecv != nil {
 			hdr := rangeRecv.Instr.Block()
-			body := hdr.Succs[0]
+			body := il.Body
 			bad := ""
-			n, _ := w.enumPaths(rf, pathOpts{Start: body, StopAt: func(b *ssa.BasicBlock) bool { return b == hdr }}, func(p *Path) {
+			n, _ := w.enumPaths(il.Fn, pathOpts{Start: body, StopAt: func(b *ssa.BasicBlock) bool { return b == hdr }}, func(p *Path) {
 				if p.Exit != "stop" {
 					bad = "render leaves its spawn loop early"
 					return
@@ -1024,27 +1025,17 @@ func checkNoRequestWhileIterating(w *World, r *Report, pfx string) {
 		}
 		return false
 	}
-	n := 0
-	for _, fn := range []*ssa.Function{w.renderFn(), w.flushFn()} {
-		if fn == nil {
+	for _, root := range []*ssa.Function{w.renderFn(), w.flushFn()} {
+		if root == nil {
 			continue
 		}
-		for _, op := range w.Comm().byFn[fn] {
-			if op.Kind != "recv" || !op.CommaOk {
-				continue
-			}
-			n++
-			// loop containing the range receive
-			var loop *loopInfo
-			for _, l := range naturalLoops(fn) {
-				if l.Header == op.Instr.Block() {
-					loop = l
-				}
-			}
+		for _, il := range w.iterLoops(root) {
+			fn, op, loop := il.Fn, il.Op, il.Loop
 			if loop == nil {
-				r.Undecided(rule, "iterator loop in "+fnShort(fn), w.instrPos(op.Instr), "range receive is not a loop header")
+				r.Undecided(rule, "iterator loop in "+fnShort(root), w.instrPos(op.Instr), "range receive is not a loop header")
 				continue
 			}
+			_ = fn
 			bad := ""
 			for b := range loop.Blocks {
 				for _, in := range b.Instrs {
@@ -1058,7 +1049,7 @@ func checkNoRequestWhileIterating(w *World, r *Report, pfx string) {
 					}
 				}
 			}
-			r.Check(bad == "", rule, "iterator loop in "+fnShort(fn), w.instrPos(op.Instr), "no heap request inside the loop", bad)
+			r.Check(bad == "", rule, "iterator loop in "+fnShort(root), w.instrPos(op.Instr), "no heap request inside the loop", bad)
 		}
 	}
 	r.Floor(rule, 2, "render's spawn loop and flush's collection loop")
@@ -1114,7 +1105,7 @@ func checkWaitGroups(w *World, r *Report, pfx string) {
 		}
 		r.Check(bad == "", rule, construct, w.instrPos(ops[0].Instr), fmt.Sprintf("%d Add, %d Done, %d Wait paired", len(adds), len(dones), len(waits)), bad)
 	}
-	r.Floor(rule, 4, "bwg, pwg, two local ewma groups")
+	r.Floor(rule, 3, "bwg, pwg, and the local group(s) the estimator goroutines are joined with")
 }
 
 // lcAddMatched: after the Add, on every path of its function, a go follows whose target
@@ -1362,4 +1353,45 @@ func (w *World) sameSource(a, b ssa.Value) bool {
 		return w.origin(fa.Base) == w.origin(fb.Base) || w.sameSource(fa.Base, fb.Base)
 	}
 	return false
+}
+
+
+// iterLoop: a loop consuming a channel with the comma-ok receive at its header (range form
+// or an explicit `v, ok := <-ch; if !ok { leave }`), searched in root and its private helpers.
+type iterLoopInfo struct {
+	Fn   *ssa.Function
+	Op   *commOp
+	Loop *loopInfo
+	Body *ssa.BasicBlock // the successor of the header taken when a value was received
+}
+
+func (w *World) iterLoops(root *ssa.Function) []iterLoopInfo {
+	var fns []*ssa.Function
+	for f := range w.unit(root) {
+		fns = append(fns, f)
+	}
+	sort.Slice(fns, func(i, j int) bool { return fns[i].Pos() < fns[j].Pos() })
+	var out []iterLoopInfo
+	for _, fn := range fns {
+		for _, op := range w.Comm().byFn[fn] {
+			if op.Kind != "recv" || !op.CommaOk {
+				continue
+			}
+			il := iterLoopInfo{Fn: fn, Op: op}
+			for _, l := range naturalLoops(fn) {
+				if l.Header == op.Instr.Block() {
+					il.Loop = l
+				}
+			}
+			if il.Loop != nil {
+				for _, s := range il.Loop.Header.Succs {
+					if il.Loop.Blocks[s] && s != il.Loop.Header {
+						il.Body = s
+					}
+				}
+			}
+			out = append(out, il)
+		}
+	}
+	return out
 }
